@@ -27,6 +27,10 @@ pub fn pts3(rec: &Value, key: &str, s: f64) -> Vec<Point3> {
 }
 pub fn build2(rec: &Value) -> (f64, engeom::Result<Curve2>) {
     let s = scale_of(rec);
+    // `from`: the curve is DERIVED - built from that vertex listing and then reversed (the record's `pts` describe the result)
+    if rec.get("from").is_some() {
+        return (s, Curve2::from_points(&pts2(rec, "from", s), tol_of(rec, s), gb(rec, "fc")).map(|c| c.reversed()));
+    }
     (s, Curve2::from_points(&pts2(rec, "pts", s), tol_of(rec, s), gb(rec, "fc")))
 }
 pub fn build3(rec: &Value) -> (f64, engeom::Result<Curve3>) {
@@ -211,7 +215,12 @@ pub fn exec(rec: &Value, st: &mut State) -> Value {
             let dim = gi(rec, "dim");
             let n = gi(rec, "n");
             let s = scale_of(rec);
+            // spacing_div: the spacing is (length of the built curve) / n as a float - it divides the length only up to rounding
+            let div_len = if gs(rec, "mode") == "spacing_div" {
+                if dim == 2 { build2(rec).1.map(|c| c.length()).unwrap_or(1.0) } else { build3(rec).1.map(|c| c.length()).unwrap_or(1.0) }
+            } else { 1.0 };
             let mode = match gs(rec, "mode") {
+                "spacing_div" => engeom::Resample::BySpacing(div_len / n as f64),
                 "count" => engeom::Resample::ByCount(n as usize),
                 "spacing" => engeom::Resample::BySpacing(n as f64 / 2.0 * s),
                 _ => engeom::Resample::ByMaxSpacing(n as f64 / 2.0 * s),
